@@ -394,7 +394,7 @@ func hsConfigs() []hsCfg {
 	var out []hsCfg
 	verSets := [][]int{{1}, {1, 2}, {0}, {}, {-1, 3}}
 	allowSets := []struct {
-		a   []string
+		a    []string
 		nil_ bool
 	}{{[]string{"netrpc"}, true}, {[]string{"grpc"}, false}, {[]string{"netrpc", "grpc"}, false}, {[]string{}, false}}
 	for _, vs := range verSets {
@@ -555,4 +555,50 @@ func hostC01(o *out, replay string) {
 	for i, c := range cases {
 		o.emit(c.line(), results[i].impl, results[i].pred)
 	}
+	// the same bound with a REAL process behind the stock command runner (its Diagnose / Kill / Wait are on the path):
+	// a process that prints a rejected first line and stays alive
+	for _, l := range []string{"lolinvalid\n", "\n", "1|1|tcp\n", "1|9|tcp|127.0.0.1:1|netrpc\n", "1|3|bogus|x\n"} {
+		impl, pred := runHsRealProcess(l)
+		o.emit("!C01.real line="+hxs(l), impl, pred)
+	}
+}
+
+// runHsRealProcess: Start against a real child that prints `line` and then hangs.
+func runHsRealProcess(line string) (impl, pred string) {
+	cmd := kitCmd(kitServeCfg{Sets: map[string]string{"3": "netrpc"}, PreServe: "printhang:" + hxs(line)})
+	client := plugin.NewClient(&plugin.ClientConfig{
+		HandshakeConfig:  kitHandshake(),
+		VersionedPlugins: kitHostSets(map[int]string{3: "netrpc"}, nil, nil),
+		Cmd:              cmd,
+		Logger:           nullLogger(),
+		StartTimeout:     1500 * time.Millisecond,
+	})
+	t0 := time.Now()
+	var serr error
+	_, hung, pp := withTimeout(8*time.Second, func() error { _, serr = client.Start(); return nil })
+	el := time.Since(t0)
+	defer func() {
+		withTimeout(5*time.Second, func() error { client.Kill(); return nil })
+		if cmd.Process != nil {
+			cmd.Process.Kill()
+		}
+	}()
+	dead := true
+	if cmd.Process != nil {
+		dead = waitDead(cmd.Process.Pid, 2*time.Second)
+	}
+	impl = fmt.Sprintf("ret=%s err=%s dead=%s", b01(!hung), b01(serr != nil), b01(dead))
+	switch {
+	case hung:
+		return impl, "FAIL:start-did-not-return-within-timeout+5s"
+	case pp != nil:
+		return impl, "FAIL:host-panic"
+	case serr == nil:
+		return impl, "FAIL:start-succeeded-on-rejected-line"
+	case el > 1500*time.Millisecond+3*time.Second:
+		return impl, "FAIL:start-exceeded-start-timeout"
+	case !dead:
+		return impl, "FAIL:start-error-without-kill"
+	}
+	return impl, "ok"
 }
